@@ -21,6 +21,7 @@ type GenOpts struct {
 	CaptureBias int // out of 10: how often a term is wrapped in a capture
 	SubBias     int // weight of @@ among terms
 	AllowBang   bool
+	ForcePos    bool // every production carries Pos, EndPos and Tokens
 }
 
 type genState struct {
@@ -112,6 +113,9 @@ func generateOnce(r *mon.RNG, id string, o *GenOpts) *Grammar {
 	s.g.Prods = make([]*Prod, s.n)
 	for i := s.n - 1; i >= 0; i-- {
 		p := &Prod{Name: pname(id, i), PosStyle: r.Weighted(1, 4, 2, 2, 1), PtrRecv: ptrRecv[i], ParserKV: r.Chance(1, 3)}
+		if o.ForcePos {
+			p.PosStyle = 1 + r.Intn(3)
+		}
 		pc := &prodGen{s: s, idx: i, budget: o.Budget}
 		e := pc.alt(o.Depth, false)
 		if !s.declNull[i] && pc.nullable(e) {
